@@ -100,6 +100,18 @@ func (w *World) materialise(ka *keyAllocator) error {
 					}
 					w.Delegates[pos] = c
 				}
+			case SgSiblingIssuerName:
+				if w.NameTwins == nil {
+					w.NameTwins = map[int]*Cert{}
+				}
+				if w.NameTwins[pos] == nil {
+					c, err := Issue(&CertSpec{CN: "twin", RawSubject: issuer.X.RawSubject, Key: ka.get("ec256"), Serial: big.NewInt(int64(7300 + pos)),
+						NotBefore: nb, NotAfter: na, KeyUsage: x509.KeyUsageDigitalSignature, MaxPathLen: -1}, issuer)
+					if err != nil {
+						return err
+					}
+					w.NameTwins[pos] = c
+				}
 			case SgSibling:
 				if w.Siblings[pos] == nil {
 					c, err := Issue(&CertSpec{CN: fmt.Sprintf("w%d-sibling%d", w.ID, pos), Key: ka.get("ec256"), Serial: big.NewInt(int64(7100 + pos)),
@@ -356,6 +368,8 @@ func (w *World) serveOCSP(cp *CertPlan, src *OCSPSrc) func(x *Exchange, req *htt
 			if status == StRevoked {
 				sg.RevokedAt = now.Add(-time.Duration(c.RevAgo) * time.Hour)
 				sg.Reason = c.Reason
+			}
+			if status == StRevoked || c.InvOnAny {
 				switch c.InvKind {
 				case InvBefore, InvEqual, InvAfter:
 					sv.Invalidity = w.invalidityFor(c.InvKind)
@@ -400,6 +414,9 @@ func (w *World) serveOCSP(cp *CertPlan, src *OCSPSrc) func(x *Exchange, req *htt
 			spec.SignerKey, spec.ResponderCert, spec.Embed = cp.C.Key, cp.C.X, []*x509.Certificate{cp.C.X}
 		case SgSibling:
 			d := w.Siblings[cp.Pos]
+			spec.SignerKey, spec.ResponderCert, spec.Embed = d.Key, d.X, []*x509.Certificate{d.X}
+		case SgSiblingIssuerName:
+			d := w.NameTwins[cp.Pos]
 			spec.SignerKey, spec.ResponderCert, spec.Embed = d.Key, d.X, []*x509.Certificate{d.X}
 		case SgOtherCADeleg:
 			d := w.BadDeleg[cp.Pos]
@@ -948,6 +965,7 @@ func (sc *RevScenario) setup(obs *RevObs, altSeed uint32, nt *Net, ka *keyAlloca
 				return nil
 			}
 			cache.Latency = sc.CacheLatency
+			cache.WrapMiss = sc.WrapMiss
 			hf.Cache = cache
 			hf.DiscardCacheError = sc.Discard
 			obs.Cache = cache
